@@ -291,6 +291,30 @@ pub fn run(runner: &mut Runner, descriptors: Option<&str>, seed: u64, thorough: 
             cluster_case(runner, fam, format!("f{fi}.{n}"), family(&mut rng, fam, n, 0.0));
         }
     }
+    // several separate groups that vote for the same Hough bin (radial stubs at one azimuth, stacked in z
+    // more than the linkage distance apart) with equal sizes among them, in every order of the sizes
+    for ci in 0..(if thorough { 120 } else { 30 }) {
+        let (a, b) = (rng.gen_range(6..=30usize), rng.gen_range(6..=30usize));
+        let size_sets: [Vec<usize>; 6] = [vec![a, a, b], vec![a, b, a], vec![b, a, a], vec![a, a, a], vec![a, a, b, b], vec![b, a, b, a, a]];
+        let sizes = &size_sets[ci % 6];
+        let phi: f64 = rng.gen_range(-PI..PI);
+        let gap = *[0.04, 0.1, 0.2].choose(&mut rng).unwrap();
+        let slope = *[0.0, 0.01, -0.02].choose(&mut rng).unwrap();
+        let mut pts = Vec::new();
+        for (g, &n) in sizes.iter().enumerate() {
+            let z0 = -0.4 + gap * g as f64 + 0.002 * n as f64 * 0.0;
+            for k in 0..n {
+                pts.push(sp(0.11 + 0.004 * k as f64, phi, z0 + slope * 0.004 * k as f64));
+            }
+        }
+        if ci % 4 == 3 {
+            pts.shuffle(&mut rng);
+        }
+        if ci % 5 == 4 {
+            pts.reverse();
+        }
+        cluster_case(runner, "stacked", format!("k{ci}"), pts);
+    }
     // ---- C14: fits of degenerate clusters (hook H3) and of clusters found by the Hough stage
     let mut tracks: Vec<Track> = Vec::new();
     let descs: Vec<Value> = match descriptors {
@@ -336,5 +360,34 @@ pub fn run(runner: &mut Runner, descriptors: Option<&str>, seed: u64, thorough: 
             }
         }
         vertex_case(runner, "set", format!("v{ci}"), set);
+    }
+    // tracks that share one helix bit for bit but cover different parameter ranges (a short stub, a long
+    // segment, a reversed range), listed in every rotation among other good tracks
+    for ci in 0..(if thorough { 400 } else { 100 }) {
+        let h = *[0.0, 1e-3, 0.5, -2.0].choose(&mut rng).unwrap();
+        let base = random_track(&mut rng, h);
+        let p = base.verif_params();
+        let r = p[3].abs().max(1e-3);
+        let stub = 0.01 / r; // 1 cm of arc
+        let t0: f64 = rng.gen_range(-0.5..0.0);
+        let mut set: Vec<Track> = vec![
+            Track::verif_new(p, t0, t0 + stub),
+            Track::verif_new(p, t0, (t0 + 0.10 / r).min(PI)),
+            random_track(&mut rng, h),
+        ];
+        if ci % 3 == 1 {
+            set.push(Track::verif_new(p, t0 + stub, t0));
+        }
+        if ci % 3 == 2 {
+            let hp = *pitches.choose(&mut rng).unwrap();
+            set.push(random_track(&mut rng, hp));
+            set.push(Track::verif_new(p, t0, t0 + 0.035 / r));
+        }
+        let n = set.len();
+        set.rotate_left(ci % n);
+        if ci % 7 == 6 {
+            set.shuffle(&mut rng);
+        }
+        vertex_case(runner, "same-helix", format!("w{ci}"), set);
     }
 }
